@@ -29,6 +29,7 @@ RULE = ("random histories of 4-10 operations {full, take k+close, take k+keep al
         "oracle. Non-trivial: the history contains at least one interrupting operation (partial / raising) before a "
         "full evaluation of a query whose oracle result is neither empty nor the whole product.")
 RULE += " Size cases (every tier): pools of 2-3 queries over one variable with 120-400 objects (alternatives, so that hundreds of rows pass de-duplicating nodes), full and partial evaluations in turn."
+RULE += ' Faulty domains (every tier): in 15% of the pool cases every given domain is a re-iterable user collection whose own walk raises at its j-th member when armed (an evaluation aborted by the DOMAIN, not by a predicate), after which every query of the pool must answer as from a clean state.'
 LEVEL_TEXT = ("Offline checker over recorded histories of API calls on the real objects: after arbitrary earlier evaluations "
               "(completed, abandoned, closed, garbage collected, aborted by an exception from user code) every query must "
               "return its fresh-evaluation result; domain lists and objects are snapshotted and compared. The node "
